@@ -91,6 +91,8 @@ def run_op(op, ctx=None):
             for e in op["pairs"]:
                 e2 = [dec(x) for x in e]
                 pairs.append(tuple(e2) if op.get("as", "tuple") == "tuple" else e2)
+            if op.get("container") == "tuple":
+                pairs = tuple(pairs)
             r = make_readable_bulk(pairs, **_kw(op, (("mode", "mode"), ("vr", "very_readable"), ("save", "save_report"))))
             out["ret"] = enc(r)
         elif kind == "newpair":
